@@ -158,7 +158,38 @@ def mirrorB (s : State) : Bool :=
       (c.state != .paused || (s.paused.contains n && !s.running.contains n))
 
 def boundedB (s : State) : Bool :=
-  s.feeds.all fun (n, f) => decide (1 ≤ f.hist) && decide ((valuesOf s n).length ≤ f.hist)
+  s.feeds.all fun (n, _) =>
+    match AMap.get? s.feeds n with
+    | none => true
+    | some f => decide (1 ≤ f.hist) && decide ((valuesOf s n).length ≤ f.hist)
+
+/-! The value clauses are meaningful only while the batch counters the service module reports grow
+per feed (otherwise a later batch overwrites or precedes a stored one). The observation lines do
+not carry the store keys, so the monitor keeps, per feed, one more than the highest counter seen
+in the history (`Hi`, empty at a reset) and checks every completed-batch callback against it;
+a violation is reported as clause `batch-counter` (the environment left the property's quantifier)
+and the theorems of `Proofs/OracleMonitor.lean` assume the guard passed. -/
+
+abbrev Hi := AMap Name Nat
+
+def hiOf (hi : Hi) (n : Name) : Nat := AMap.getD hi n 0
+
+def guardCbs : Hi → List Cb → Option Hi
+  | hi, [] => some hi
+  | hi, .done f b _ _ :: r => if hiOf hi f ≤ b then guardCbs (AMap.set hi f (b + 1)) r else none
+  | hi, .state _ _ :: r => guardCbs hi r
+
+def guardOp (hi : Hi) : Op → Option Hi
+  | .respond true cbs => guardCbs hi cbs
+  | .block _ cbs => guardCbs hi cbs
+  | _ => some hi
+
+def guardRun : Hi → List Op → Option Hi
+  | hi, [] => some hi
+  | hi, op :: r =>
+    match guardOp hi op with
+    | none => none
+    | some hi' => guardRun hi' r
 
 /-- oracle-owned state equal (feeds, index, values) -/
 def sameOracle (a b : State) : Bool :=
@@ -216,7 +247,6 @@ def valuesVerdicts (pre post : State) (cbs : List Cb) : List Verdict :=
           else acc ++ [.fail "value"
             (match AMap.get? pre.feeds n, lastDone n cbs with
              | some fd, some outs =>
-               -- attribute to F-ora-1 only a single-batch step whose other batches cannot have interfered
                if inClassOra1 fd.agg outs gv.data then "F-ora-1" else ""
              | _, _ => "")]
         let a2 := if gv.time == ev.time then a1 else a1 ++ [.fail "timestamp" ""]
@@ -252,6 +282,12 @@ def stepVerdicts (pre : State) (op : Op) (accepted : Bool) (post : State) : List
     | .respond _ cbs => valuesVerdicts pre post cbs
     | .block _ cbs => valuesVerdicts pre post cbs
     | .bank => if sameOracle pre post then [] else [Verdict.fail "bank-changed" ""]) ++ inv
+
+/-- whether the model (or the implementation) accepted the operation -/
+def accepted (s : State) (op : Op) : Bool :=
+  match step s op with
+  | .ok _ => true
+  | .error _ => false
 
 /-! pure aggregate calls -/
 
